@@ -437,6 +437,7 @@ type vfDirected struct {
 	Mixed     bool            // odd messages are sent with the opposite ordering (ordered/unordered share the stream)
 	Burst     bool            // all messages are written before the network moves (one FORWARD-TSN can cover several messages)
 	SeqWrap   int             // >0: SSN/MID counters preset this far below their wrap
+	RelFrag bool // the fully reliable stream sends two-fragment messages and loses the first copy of each last fragment
 }
 
 func vfRunDirected(t *testing.T, tr *vfTrace, x vfDirected) bool {
@@ -458,6 +459,17 @@ func vfRunDirected(t *testing.T, tr *vfTrace, x vfDirected) bool {
 		p := int(w.ep[0].a.maxPayloadSize)
 		fwdDropped := 0
 		ids := map[int]int{}
+		relIds := map[int]bool{}
+		relWrite := func(i int) {
+			n := 10 + i
+			if x.RelFrag {
+				n = 2*p - 3 - i
+			}
+			m, _ := w.write(0, 2, n, 53)
+			if x.RelFrag && m != nil {
+				relIds[m.ID] = true
+			}
+		}
 		pumpSel := func() {
 			for k := 0; k < 200; k++ {
 				pend := w.pending(-1)
@@ -468,6 +480,9 @@ func vfRunDirected(t *testing.T, tr *vfTrace, x vfDirected) bool {
 				drop := false
 				for _, d := range w.dataIn(pk) {
 					if mi, ok := ids[d.id]; ok && d.first && x.Drop[[2]int{mi, d.fi}] {
+						drop = true
+					}
+					if relIds[d.id] && d.first && d.fi == 1 {
 						drop = true
 					}
 				}
@@ -506,13 +521,13 @@ func vfRunDirected(t *testing.T, tr *vfTrace, x vfDirected) bool {
 			m, _ := w.write(0, 1, n, 51)
 			ids[m.ID] = i + 1
 			if !x.Burst {
-				w.write(0, 2, 10+i, 53)
+				relWrite(i)
 				pumpSel()
 			}
 		}
 		if x.Burst { // the reliable stream's traffic follows the burst of partially reliable messages
 			for i := range x.NFrag {
-				w.write(0, 2, 10+i, 53)
+				relWrite(i)
 			}
 		}
 		pumpSel()
@@ -554,7 +569,7 @@ func init() {
 						}
 					}
 					for di, ds := range sets {
-						for _, variant := range []string{"plain", "fwdlost", "recvcfg", "mixed", "burst", "burstwrap", "wrap"} {
+						for _, variant := range []string{"plain", "fwdlost", "recvcfg", "mixed", "burst", "burstwrap", "wrap", "relfrag", "relfragburst"} {
 							if !full && variant != "plain" && di%3 != 0 {
 								continue
 							}
@@ -580,6 +595,10 @@ func init() {
 								x.Burst, x.SeqWrap = true, 1+di%3
 							case "wrap":
 								x.SeqWrap = 1 + di%3
+							case "relfrag":
+								x.RelFrag = true
+							case "relfragburst":
+								x.RelFrag, x.Burst = true, true
 							}
 							if vfRunDirected(t, tr, x) {
 								t.Fatalf("scenario %s hung", x.Label)
